@@ -45,6 +45,7 @@ package soyhtml
 //@ func directiveTruncate
 //@   props C16
 //@   nosafety
+//@   stringsexact
 //@   ghost gs string = ""
 //@   at call data.Value.String#0 after set gs = res
 //@   ensures[fits] len(gs) <= int(unbox(args[0], data.Int)) ==> result == value
